@@ -131,9 +131,23 @@ def oracle(ctx, hints, effort):
         sc["emmodel"], sc["nmax"] = em, int(rng.choice([16, 32]))
         splits = []
         nl = len(sc["thickness"])
-        for _ in range(int(rng.integers(1, 5))):
-            splits.append((int(rng.integers(0, nl)), round(float(rng.uniform(0.05, 0.95)), 3), str(rng.choice(["flat", "transparent"]))))
-            nl += 1
+        if it % 3 == 1 and not active:
+            # optically deep, strongly scattering pack (optical depth well beyond 6) cut near the top of its deep layer: the new interface
+            # lands at an optical depth where any depth-dependent shortcut of the solver would change the answer
+            em = "iba"
+            sc = scenes.random_scene(rng, nlayer=2, lossless=False, microstructure="exponential", atmosphere=False, substrate="flat",
+                                     frequency=float(rng.choice([36.5e9, 89e9])))
+            sc["thickness"] = [round(float(rng.uniform(0.2, 0.6)), 3), round(float(rng.uniform(4, 10)), 3)]
+            sc["micro"]["corr_length"] = [round(float(rng.uniform(2e-4, 3e-4)), 7), round(float(rng.uniform(3e-4, 4.5e-4)), 7)]
+            sc["density"] = [round(float(rng.uniform(200, 300)), 1), round(float(rng.uniform(300, 400)), 1)]
+            sc["emmodel"], sc["nmax"] = em, 16
+            splits = [(1, round(float(np.exp(rng.uniform(np.log(0.01), np.log(0.4)))), 4), "transparent")]
+            if rng.random() < 0.5:
+                splits.append((2, round(float(rng.uniform(0.05, 0.5)), 3), "flat"))
+        else:
+            for _ in range(int(rng.integers(1, 5))):
+                splits.append((int(rng.integers(0, nl)), round(float(rng.uniform(0.05, 0.95)), 3), str(rng.choice(["flat", "transparent"]))))
+                nl += 1
         try:
             r = check_split(sc, active, splits)
         except AssertionError:
